@@ -475,8 +475,19 @@ def run_tlc_model(module, cfg, workers=NCPU, timeout=1200, extra=None):
     shutil.rmtree(md, ignore_errors=True)
     m = re.search(r"(\d+) states generated, (\d+) distinct states found", out)
     ok = ("Model checking completed. No error has been found." in out) and not timed_out
-    return dict(states=int(m.group(2)) if m else 0, transitions=int(m.group(1)) if m else 0, ok=ok,
-                timed_out=timed_out, out=out, wall=time.time() - t0)
+    states = int(m.group(2)) if m else 0
+    trans = int(m.group(1)) if m else 0
+    simulated = bool(extra and "-simulate" in extra)
+    if simulated:
+        # random behaviours, not an exhaustive search: TLC reports states checked and traces generated
+        ms = re.search(r"The number of states generated: (\d+)", out)
+        mt = re.search(r"(\d+) traces generated", out)
+        states = trans = int(ms.group(1)) if ms else 0
+        ok = (ms is not None) and ("Error:" not in out) and not timed_out
+        return dict(states=states, transitions=trans, ok=ok, timed_out=timed_out, out=out, wall=time.time() - t0,
+                    simulated=True, traces=int(mt.group(1)) if mt else 0)
+    return dict(states=states, transitions=trans, ok=ok,
+                timed_out=timed_out, out=out, wall=time.time() - t0, simulated=False)
 
 
 # ------------------------------------------------------------------------------------------
